@@ -287,6 +287,22 @@ void svt_verif_hb_acquire(const volatile void *addr) {
 
 uint64_t svt_verif_hb_count(void) { return __atomic_load_n(&g_hb_count, __ATOMIC_RELAXED); }
 
+/* ------------------------------------------------------------------ */
+/* H5                                                                  */
+static uint64_t g_dec_tools[SVT_VERIF_DEC_TOOLS];
+
+void svt_verif_dec_tool_note(int palette, int intrabc, int filter_intra, int cfl, int inter_intra, int obmc,
+                             int warped) {
+    const int v[SVT_VERIF_DEC_TOOLS] = {1, palette, intrabc, filter_intra, cfl, inter_intra, obmc, warped};
+    for (int i = 0; i < SVT_VERIF_DEC_TOOLS; i++)
+        if (v[i])
+            __atomic_fetch_add(&g_dec_tools[i], 1, __ATOMIC_RELAXED);
+}
+
+void svt_verif_dec_tool_counts(uint64_t out[SVT_VERIF_DEC_TOOLS]) {
+    for (int i = 0; i < SVT_VERIF_DEC_TOOLS; i++) out[i] = __atomic_load_n(&g_dec_tools[i], __ATOMIC_RELAXED);
+}
+
 #else
 /* ISO C forbids an empty translation unit */
 typedef int svt_verif_hooks_unused_t;
